@@ -416,7 +416,7 @@ def get_map_subchunks_based_on_index_lengths(map_, invalid, chunksize):
     chunks = list()
     sm = 0
     while sm < len(map_):
-        next_sm = next_map_subchunk(map_, sm, -1, chunksize)
+        next_sm = next_map_subchunk(map_, sm, invalid, chunksize)
         chunks.append((sm, next_sm))
         sm = next_sm
     return chunks
